@@ -80,7 +80,7 @@ Print Assumptions C04_terminal_error_sticky.
    sends its request message; the release of a cancelled running request terminates it even if the
    executor reports ErrPaused. *)
 Theorem C04_cancelled_request_never_goes_online : forall c consumed s,
-  xpc s = XGoOnline consumed -> rctx s = true -> exec_step c s = Some (s_xpc (XRelease false) s, []).
+  xpc s = XGoOnline consumed -> rctx s = true -> exec_step c s = Some (s_xpc (XRelease false) (s_rq 0 s), []).
 Proof. exact go_online_cancelled. Qed.
 Print Assumptions C04_cancelled_request_never_goes_online.
 
